@@ -3,6 +3,7 @@
 package sim
 
 import (
+	"fmt"
 	"runtime"
 	"strings"
 	"time"
@@ -167,10 +168,16 @@ func ConfirmStuck(looks int, gap time.Duration) (bool, string) {
 	return false, ""
 }
 
-// stuckLook takes one profile: ok is false when any goroutine inside the code under test can run, or none waits.
+// stuckLook takes one profile. ok is false when
+//   - no call made by the harness is inside the code under test any more (it has returned meanwhile), or
+//   - any goroutine inside the code under test can run (running, runnable, syscall, sleeping, GC), or
+//   - a harness-made call is not parked on a lock, a channel or a wait group.
+//
+// Idle background loops of the nodes (tickers, subscribers) are part of the compared set but never make a node
+// "stuck" by themselves: the verdict is about calls the harness is waiting for.
 func stuckLook() (string, bool) {
 	var set []string
-	waiting := false
+	targets := 0
 	for _, g := range Goroutines() {
 		f := repoFrames(g)
 		if f == "" {
@@ -183,16 +190,53 @@ func stuckLook() (string, bool) {
 		if strings.Contains(g.State, "GC") {
 			return "", false
 		}
-		if g.State == "chan send" || g.State == "chan receive" || strings.HasPrefix(g.State, "sync.") || g.State == "semacquire" {
-			waiting = true
+		body := g.Stack
+		if i := strings.Index(body, "\ncreated by "); i >= 0 {
+			body = body[:i]
+		}
+		if strings.Contains(body, "verif/harness/") {
+			// a call of the harness into the node
+			parked := g.State == "chan send" || g.State == "chan receive" || g.State == "select" || g.State == "semacquire" || strings.HasPrefix(g.State, "sync.")
+			if !parked {
+				return "", false
+			}
+			targets++
+			f = "[call made by the harness] " + f
 		}
 		set = append(set, f)
 	}
-	if !waiting {
+	if targets == 0 {
 		return "", false
 	}
 	sortStrings(set)
-	return strings.Join(set, "\n--\n"), true
+	// the calls the harness waits for first (the report is cut to a few KB)
+	var head, rest []string
+	for _, x := range set {
+		if strings.HasPrefix(x, "[call made by the harness]") {
+			head = append(head, x)
+		} else {
+			rest = append(rest, x)
+		}
+	}
+	return strings.Join(append(head, dedupCount(rest)...), "\n--\n"), true
+}
+
+// dedupCount folds identical stacks (idle loops of many nodes) into one entry with a count.
+func dedupCount(a []string) []string {
+	var out []string
+	for i := 0; i < len(a); {
+		j := i
+		for j < len(a) && a[j] == a[i] {
+			j++
+		}
+		if j-i > 1 {
+			out = append(out, fmt.Sprintf("(x%d) %s", j-i, a[i]))
+		} else {
+			out = append(out, a[i])
+		}
+		i = j
+	}
+	return out
 }
 
 func sortStrings(a []string) {
@@ -201,4 +245,19 @@ func sortStrings(a []string) {
 			a[j], a[j-1] = a[j-1], a[j]
 		}
 	}
+}
+
+// ---------- hooks on a wedged node ----------
+
+// OnWedge is called when one of the harness's own hook calls (parked list, snapshot) does not return: the hooks take the
+// node's internal locks, so a lock the node leaked would otherwise hang the harness until the process times out.
+// The handler (installed by the checks package) records what it can and ends the process.
+var OnWedge func(what string, confirmed bool, stacks string)
+
+func wedge(what string) {
+	ok, stacks := ConfirmStuck(5, 400*time.Millisecond)
+	if OnWedge != nil {
+		OnWedge(what, ok, stacks)
+	}
+	panic("sim: hook " + what + " did not return (node wedged)")
 }
